@@ -268,13 +268,21 @@ fn observe(acc: &mut Acc, received: &str, accepted: &[&str], part: &str) {
 }
 
 const LETTERS: [char; 8] = ['a', 'b', 'c', 'd', 'e', 'é', '日', '😀'];
+/// characters that quoting / escaping routines rewrite (the suggestion has to name the accepted string itself)
+const HOSTILE: [char; 10] = ['\'', '"', '\\', '\t', '\n', '\u{0}', '\u{7f}', '\u{301}', '\u{200b}', '`'];
 
 /// A string of exactly `bytes` bytes (multi-byte characters included when they fit).
 fn string_of_bytes(rng: &mut Rng, bytes: usize, ascii_only: bool) -> Vec<char> {
     let mut s = vec![];
     let mut left = bytes;
     while left > 0 {
-        let c = if ascii_only { LETTERS[rng.below(5)] } else { *rng.pick(&LETTERS) };
+        let c = if ascii_only {
+            LETTERS[rng.below(5)]
+        } else if rng.chance(1, 8) {
+            *rng.pick(&HOSTILE)
+        } else {
+            *rng.pick(&LETTERS)
+        };
         if c.len_utf8() <= left {
             left -= c.len_utf8();
             s.push(c);
@@ -287,6 +295,9 @@ fn string_of_bytes(rng: &mut Rng, bytes: usize, ascii_only: bool) -> Vec<char> {
 /// Damerau–Levenshtein differ (xy -> yzx and xzy -> yx: distance 2, OSA 3).
 fn edit(rng: &mut Rng, s: &mut Vec<char>) {
     let letter = |rng: &mut Rng| {
+        if rng.chance(1, 16) {
+            return *rng.pick(&HOSTILE);
+        }
         let k = if rng.chance(1, 4) { 8 } else { 5 };
         LETTERS[rng.below(k)]
     };
@@ -420,6 +431,18 @@ pub fn run(ctx: &Ctx) -> i32 {
                 }
             }
             observe(&mut acc, "abcd", &[], "compound_shapes");
+            // names that an escaping routine would rewrite, one edit away from the received string
+            for h in HOSTILE {
+                for name in [format!("user{h}s_name"), format!("{h}leading"), format!("trailing{h}"), format!("{h}{h}twice{h}")] {
+                    let mut received: Vec<char> = name.chars().collect();
+                    let last = received.len() - 2;
+                    received.remove(last);
+                    let received: String = received.into_iter().collect();
+                    observe(&mut acc, &received, &[name.as_str()], "hostile_names");
+                    observe(&mut acc, &received, &["unrelated", name.as_str(), "other"], "hostile_names");
+                    observe(&mut acc, &name, &[name.as_str()], "hostile_names");
+                }
+            }
             observe(&mut acc, "", &[""], "compound_shapes");
         }
         // seeded random multi-candidate lists around every threshold
@@ -437,7 +460,7 @@ pub fn run(ctx: &Ctx) -> i32 {
         Finish {
             level: "exploration",
             rule: format!(
-                "exhaustive (seed independent): every (received, single accepted string) pair over the alphabet {{a,b,c}} with lengths 0..=6 (1093^2 = 1194649 calls); deterministic transpose+insert shapes at byte lengths 4..30. Plus {n_random} seeded random cases: received string of byte length 0,2,3,4,5,7,8,9,12,13,15,17,18,24,25,31 (optionally one edit more), over {{a..e, e-acute, CJK, emoji}}; accepted list of 0..6 strings, each 0..6 random edits of the received string (insert, delete, substitute, adjacent transposition, transpose+insert-between, delete-between+transpose), an exact copy, a duplicate of an earlier entry, or an unrelated string. Oracle: own unrestricted Damerau-Levenshtein distance over chars (validated by breadth-first search over edits on all pairs of strings up to length 3), budget by BYTE length (<=3 never, 4-7:1, 8-12:2, 13-17:3, 18-24:4, else 5); output must be \"\" or exactly `did you mean `X`? ` with X the earliest accepted string at minimal distance within budget; \"\" iff none is within budget. Non-trivial = received string of >= 4 bytes with a non-empty accepted list; distinct = (received, accepted list)."
+                "exhaustive (seed independent): every (received, single accepted string) pair over the alphabet {{a,b,c}} with lengths 0..=6 (1093^2 = 1194649 calls); deterministic transpose+insert shapes at byte lengths 4..30. Plus {n_random} seeded random cases: received string of byte length 0,2,3,4,5,7,8,9,12,13,15,17,18,24,25,31 (optionally one edit more), over {{a..e, e-acute, CJK, emoji}} plus characters that escaping routines rewrite (quotes, backslash, tab, newline, NUL, DEL, a combining accent, a zero-width space, a back-tick); accepted list of 0..6 strings, each 0..6 random edits of the received string (insert, delete, substitute, adjacent transposition, transpose+insert-between, delete-between+transpose), an exact copy, a duplicate of an earlier entry, or an unrelated string. Oracle: own unrestricted Damerau-Levenshtein distance over chars (validated by breadth-first search over edits on all pairs of strings up to length 3), budget by BYTE length (<=3 never, 4-7:1, 8-12:2, 13-17:3, 18-24:4, else 5); output must be \"\" or exactly `did you mean `X`? ` with X the earliest accepted string at minimal distance within budget; \"\" iff none is within budget. Non-trivial = received string of >= 4 bytes with a non-empty accepted list; distinct = (received, accepted list)."
             ),
             exhaustive: true,
             assumptions: vec![
